@@ -9,6 +9,7 @@
 From Via Require Import M_Char M_Encode M_Parse M_Receive M_Server P_Server.
 From Via Require Import M_Client P_Client.
 From Via Require Import P_C04 P_C02 P_C08c P_C08d P_C08e P_C08f P_C08g.
+From Via Require Import M_Str Gen_Parse P_Str.
 Local Open Scope N_scope.
 
 Theorem C04_chunk_frame : forall c, slots_bytes c [SHeader; SBody; SCrlf] = c_tx_header c ++ c_tx_body c ++ [13; 10].
@@ -106,3 +107,19 @@ Print Assumptions C04_response_bytes.
 Print Assumptions C04_response_with_body_is_one_valid_response.
 Print Assumptions C04_client_request_framing.
 Print Assumptions C04_client_chunk_framing.
+
+(* ---- the tie to the source, as a theorem ----
+   tx_response::message and tx_request::message - how a head is put together and WHEN the Content-Length line is added
+   (no Content-Length and no Transfer-Encoding in the header string and, for a response, a status that permits content) -
+   are translated from clang's AST on every run (translate/parse.py -> Gen_Parse.v, terms of M_Str.v); the model's
+   response_message / request_message, about which the framing theorems speak, are what the translated functions return,
+   for EVERY message and length.  (The start line's to_string() is the model's response_line_string /
+   request_line_string; content_permitted is the regenerated table function.) *)
+Theorem C04_response_message_is_the_source : forall r n,
+  srun (mk_senv (response_line_string r) (rs_headers r) (rs_status r) n) tx_response_message_src = Some (response_message r n).
+Proof. exact response_message_is_the_source. Qed.
+Theorem C04_request_message_is_the_source : forall r n,
+  srun (mk_senv (request_line_string r) (tq_headers r) 0 n) tx_request_message_src = Some (request_message r n).
+Proof. exact request_message_is_the_source. Qed.
+Print Assumptions C04_response_message_is_the_source.
+Print Assumptions C04_request_message_is_the_source.
